@@ -232,6 +232,17 @@ def conv_build(cs, tag, ptype, name, std="c++14"):
     return vlib.compile_cxx(src, "c07-conv-%s-%s" % (name, tag), std=std, opt="-O0", san="asan", flags=["-I" + HERE])
 
 
+def conv_syntax(c, tag, ptype):
+    h = hashlib.sha256((c.id + tag).encode()).hexdigest()[:12]
+    src = os.path.join(GEN, "conv_syn_%s.cpp" % h)
+    _write(src, gen_conv.tu([c], tag, ptype))
+    r = vlib.sh(["g++", "-std=c++14", "-I" + vlib.INCLUDE, "-I" + os.path.join(vlib.VERIF, "engine"), "-I" + HERE, "-fsyntax-only", src])
+    if r.returncode == 0:
+        return True, ""
+    errs = [l.strip() for l in r.stderr.splitlines() if "error" in l]
+    return False, (errs[0] if errs else r.stderr)[-400:]
+
+
 def conv_one(ctx, c, tag, ptype):
     """build and run a single conversion case; ill-formed: note if listed, violation otherwise"""
     h = hashlib.sha256(c.id.encode()).hexdigest()[:12]
@@ -264,9 +275,18 @@ def run_conv(ctx):
             try:
                 binary = conv_build(good, tag, ptype, "all")
             except vlib.HarnessError:
-                ctx.note("the conversion cases for %s were built one by one because the combined program did not compile" % ptype)
-                vlib.parallel([(lambda c=c: conv_one(ctx, c, tag, ptype)) for c in good], workers=8)
-                return
+                # some case no longer compiles: find the ill-formed ones with a syntax-only pass, run the rest together
+                ctx.note("the combined conversion program for %s did not compile: every case was compiled on its own" % ptype)
+                res = vlib.parallel([(lambda c=c: conv_syntax(c, tag, ptype)) for c in good], workers=8)
+                still = []
+                for c, (ok, first) in zip(good, res):
+                    if ok:
+                        still.append(c)
+                    else:
+                        ctx.violation("C07/%s/%s:%s/ill-formed" % (c.kind, c.form, c.closure),
+                                      "conversion %s [payload %s] no longer compiles (it is not in the committed list of ill-formed conversions): %s" % (c.id, ptype, first),
+                                      harness="conv", args=["conv", c.id, tag])
+                binary = conv_build(still, tag, ptype, "rest")
             ctx.run_harness(binary, [], env=ENV, tag="conv")
         jobs.append(table)
         # the committed ill-formed conversions: probed with the Counted payload in the quick tier, with every payload in the thorough tier
